@@ -1,0 +1,9 @@
+//go:build verif
+// +build verif
+
+package wuffsroot
+
+// Hook for /verif property C20: lets an in-process harness point the cached
+// Wuffs root at a scratch copy of the repository (Value() otherwise derives it
+// from the process's initial working directory, once).
+func VerifSetValue(value string) { setValue(value) }
